@@ -243,17 +243,10 @@ func cmpDiags(a, b diags.Diagnostic) int {
 }
 
 func cmpDiagnostics(sa, sb []diags.Diagnostic) int {
-	if len(sa) == 0 {
-		return -1
-	}
-	if len(sb) == 0 {
-		return 1
-	}
-
 	slices.SortStableFunc(sa, cmpDiags)
 	slices.SortStableFunc(sb, cmpDiags)
 
-	return cmpDiags(sa[0], sb[0])
+	return slices.CompareFunc(sa, sb, cmpDiags)
 }
 
 func isSameDiagnostics(sa, sb []diags.Diagnostic) bool {
